@@ -423,3 +423,35 @@ PROPS["C09"] = dict(
     rule="cases: every map of MC_Rewrite (3 source tables with a duplicate name / an unreferenced entry / order different from first use, names with a duplicate, 3 content patterns, <= MaxToks tokens) x {names} x {contents} x 5 prefix lists, built via the raw constructor and via decoding; seeded random maps (roots, duplicate/absolute/URL sources, partial contents) with random explicit prefixes and Hermes documents with one function map per source; distinct = distinct (map projection, options); non-trivial = at least one token",
     assumptions=COMMON_ASSUMPTIONS,
 )
+
+def _corrupt_c14(e):
+    o = e["out"]
+    sc = o["p"]["scopes"]
+    for i, s in enumerate(sc):
+        if s:
+            sc[i] = []
+            o["scopes2"][i] = []
+            return True
+    if sc:
+        sc[0] = ["zz"]
+        o["scopes2"][0] = ["zz"]
+        return True
+    o["line1"] = ["zz"]
+    return True
+
+PROPS["C14"] = dict(
+    level="model_checking",
+    level_text="Hermes.tla reads Metro's function-map format independently: a symbol-level decoder machine (wire lines, column reset, optional name/line deltas, any VLQ error disables the function map) and ScopeAt = name of the last entry at or before (1-based line, column). TLC runs the machine over every text of a segment alphabet and checks fold = machine, 'unparsable disables', one entry per segment, and enumerates the texts. Each text is embedded in a real Hermes document whose tokens cover a grid of original positions; get_scope_for_token for every token and get_original_function_name for every bytecode offset are judged by TLC, before and after a serialise/decode cycle; seeded documents add null/empty/unparsable metadata, out-of-range name indices and several sources.",
+    level_note="function maps whose entries are not in (line, column) order are outside 'well-formed': for them only successful decoding and stability under the cycle are demanded",
+    technique="TLA+ function-map decoder machine + declarative scope lookup (Hermes.tla), TLC bounded model checking, trace validation of real scope answers",
+    mc=[
+        dict(module="MC_Hermes", cfg="MC_Hermes_quick.cfg", tiers=("quick",), workers=8),
+        dict(module="MC_Hermes", cfg="MC_Hermes_thorough.cfg", tiers=("thorough",), workers=14, timeout=3400, heap="24g"),
+    ],
+    trace="Trace_C14",
+    drive=dict(quick=dict(n=800, size=3), thorough=dict(n=16000, size=6)),
+    nontrivial=lambda e: e["out"].get("k") == "ok" and any(s for s in e["out"]["p"]["scopes"]),
+    corrupt=_corrupt_c14,
+    rule="cases: every function-map text of MC_Hermes (<= MaxSegs segments from 8 kinds incl. omitted trailing fields, name index driven out of range, unterminated and foreign-byte segments; ',' ';' ';;') embedded in a 2-source document with 22 tokens over a 4x5 grid of original positions, 36 bytecode offsets; seeded Hermes documents with 1..3 sources, null / empty / unparsable / multi-line function maps; distinct = distinct document; non-trivial = at least one token resolves to a function name",
+    assumptions=COMMON_ASSUMPTIONS,
+)
